@@ -11,6 +11,7 @@ Unicode samples, through matches, =~, !~, search, searchAll, split, replace,
 replaceBy, with selector lambdas reading $1 $2 $3 $x.  Every finalised result
 is compared exactly (value and type) with models/strs.py / models/rx.py.
 """
+import collections.abc
 import itertools
 
 import vf.loader  # noqa: F401
@@ -28,6 +29,8 @@ RULE = ('one case = (function form, arguments); string cases enumerate every str
         'function form, selector); a case is non-trivial when the model defines a value for it (inside the '
         'documented domain); cases are distinct by (form text, arguments)')
 ASSUMPTIONS = [
+    'engine options (yaql.limitIterators, yaql.memoryQuota within their limits, yaql.convertOutputData, '
+    'yaql.convertInputData) do not change what a string or regex function computes',
     'Python `re` is the documented regex dialect: the model takes the sequence of leftmost non-overlapping matches '
     'from re.finditer and derives search/searchAll/split/replace/replaceBy and the published records itself',
     'CPython Unicode tables are the reference for case mapping and for "whitespace characters"',
@@ -42,15 +45,23 @@ ASSUMPTIONS = [
 ]
 BOUNDS = {
     'quick': 'strings: all of length <= 3 over {a,b,space,e-acute} (85) + 14 Unicode samples under every string function '
-             '(substring start x length, indexOf/lastIndexOf with 8 substrings x start, split/rightSplit x 5 separators x '
+             '(substring start x length, indexOf/lastIndexOf with 6 substrings x start, split/rightSplit x 5 separators x '
              '4 limits, trim family x 5 char sets, replace 6x4x5, 16 ordered dictionaries x 4 counts, affixes, operators); '
-             'the 256 strings of length 4 under substring with every start x length; 4-argument indexOf/lastIndexOf on '
-             'length <= 2 (all substrings) and length 3 (2 substrings); all 4096 characters() flag subsets; regex: the 91 '
-             'patterns of <= 2 atoms x 8 flag sets x 16 strings x 6 core forms + 20 further forms without flags; the 3-atom '
-             'patterns without flags x 4 strings x 6 core forms',
+             'the 16 strings of length 4 over {a,b} under substring with every start x length; 4-argument indexOf/lastIndexOf on '
+             'length <= 2 (all substrings) and length 3 (2 substrings); all 4096 characters() flag subsets; regex (11 atoms): the '
+             '133 patterns of <= 2 atoms x 6 core forms x (16 strings without flags, 8 strings under each of the 7 other '
+             'flag sets) + 20 further forms without flags on 8 strings; the 3-atom patterns without flags x 3 strings x 6 '
+             'core forms; '
+             'every (pattern <= 2 atoms, flag set) also built with positional flags, a skipped slot, on the legacy engine '
+             'and through context("regex", engine)(...), each judged by searchAll on 4 flag-sensitive probes; a '
+             'representative form of every function family (21 string forms x 35 strings, characters, 6 regex forms x 12 '
+             'patterns x 17 strings) under 3 engine option sets (iterator/memory limits, convertOutputData off, '
+             'convertInputData off)',
     'thorough': 'strings: all of length <= 4 (341) + 14 samples under every string function, 10 substrings, 4-argument '
                 'indexOf/lastIndexOf on all, operators against all strings of length <= 3; regex: all patterns of <= 3 '
-                'atoms x 8 flag sets x 28 strings x 6 core forms, and without flags 26 forms x 28 strings (55 strings for <= 2 atoms)',
+                'atoms x 8 flag sets x 28 strings x 6 core forms, and without flags 26 forms x 28 strings (55 strings for <= 2 atoms); '
+                'the 4 other flag spellings for every (pattern <= 2 atoms, flag set) and for 3-atom patterns where multiLine != dotAll; '
+                'the option-set runs as in quick',
 }
 
 # ---------------------------------------------------------------------------
@@ -69,8 +80,8 @@ STRINGS = over(ALPHA, 4) + SAMPLES
 SHORT2 = over(ALPHA, 2)
 SHORT3 = over(ALPHA, 3)
 
-SUBS_Q = ['', 'a', 'b', 'ab', 'ba', 'aa', ' ', '\xe9']
-SUBS_T = SUBS_Q + ['bb', 'aba']
+SUBS_Q = ['', 'a', 'b', 'ab', 'aa', '\xe9']
+SUBS_T = SUBS_Q + ['ba', ' ', 'bb', 'aba']
 SUBS_Q3 = ['', 'ab']        # quick: 3-argument forms on strings of length 3
 SEPS = [None, 'a', 'ab', '', ' ']
 CHARS = [None, '', 'a', 'ab', ' \xe9']
@@ -92,7 +103,9 @@ RX_SAMPLES = ['A', 'aB', 'Ab\n', 'B\nA', '\xe9', 'a\xe9b', ' a ', 'abab', 'baab'
               '\U0001f600a', 'AB\nab', '\n\nb', 'bbab']
 RX_STRINGS_2 = over(['a', 'b', '\n'], 2)
 RX_STRINGS_3 = over(['a', 'b', '\n'], 3)
-RX_FEW = ['', 'ab', 'Aab', 'ba\nab']
+RX_FEW = ['', 'ab', 'ba\nab']
+RX_MORE_Q = ['', 'a', 'ab', 'ba', '\n', 'a\n', 'A', 'Ab\n']          # quick, the further forms
+RX_FLAGGED_Q = ['', 'a', 'b', '\n', 'ab', 'a\nb', '\nb', 'Ab\n']    # quick, runs with flags set
 
 
 def patterns(max_atoms):
@@ -189,9 +202,30 @@ KEY_CHARS = ('characters(letters|lowercase|uppercase => true) raises AttributeEr
 # ---------------------------------------------------------------------------
 # observation and comparison
 # ---------------------------------------------------------------------------
-def observe(text, variables):
+# engine options that must not change what a string / regex function computes
+OPTION_SETS = {
+    'limits': {'yaql.limitIterators': 1000, 'yaql.memoryQuota': 1000000},
+    'raw-output': {'yaql.convertOutputData': False},
+    'raw-input': {'yaql.convertInputData': False},
+}
+
+
+def finalised(v):
+    """What an unfinalised result (yaql.convertOutputData off) denotes: lazy
+    and immutable sequences as lists, mappings as dicts."""
+    if isinstance(v, str) or v is None:
+        return v
+    if isinstance(v, collections.abc.Mapping):
+        return {k: finalised(x) for k, x in v.items()}
+    if isinstance(v, (collections.abc.Iterator, list, tuple)):
+        return [finalised(x) for x in v]
+    return v
+
+
+def observe(text, variables, options=None, legacy=False):
     try:
-        return ('v', yq.evaluate(text, variables=variables))
+        v = yq.evaluate(text, variables=variables, options=OPTION_SETS.get(options), legacy=legacy)
+        return ('v', finalised(v) if options == 'raw-output' else v)
     except (yexc.NoMatchingFunctionException, yexc.NoMatchingMethodException):
         return S.NOMATCH
     except Exception as e:
@@ -239,12 +273,17 @@ def show(v):
     return r if len(r) < 300 else r[:300] + '...'
 
 
-def judge(res, site, text, variables, call, key=None):
+def judge(res, site, text, variables, call, key=None, options=None):
     """Run one string-function case.  `call` = (model function name, args)."""
     case = {'kind': 'str', 'site': site, 'text': text, 'vars': variables, 'call': [call[0], list(call[1])]}
-    res.case((site, text, sorted(variables.items(), key=repr)))
+    ident = (site, text, sorted(variables.items(), key=repr))
+    if options:
+        case['options'] = options
+        ident += (options,)
+        key = key or 'model-mismatch fn=%s options=%s' % (site, options)
+    res.case(ident)
     exp = getattr(S, call[0])(*call[1])
-    obs = observe(text, variables)
+    obs = observe(text, variables, options)
     res.evaluations += 1
     res.transitions += 1
     if exp is None:
@@ -278,7 +317,9 @@ def job_strings(tier, strings):
         starts = list(range(-n, n + 3))
         lengths = list(range(-2, n + 3))
         v = {'s': s}
-        full = thorough or n <= 3 or s in SAMPLES      # quick: the length-4 grid strings go through substring only
+        full = thorough or n <= 3 or s in SAMPLES      # quick: of the length-4 grid strings only those over {a, b},
+        if not full and set(s) - set('ab'):            # and through substring only
+            continue
         # substring ------------------------------------------------------
         for a in starts:
             judge(res, 'substring/2', '$s.substring($a)', dict(v, a=a), ('substring', (s, a)))
@@ -431,12 +472,59 @@ def build_regex(p, flags):
     return observe(REGEX_TEXT, {'p': p, 'i': flags[0], 'm': flags[1], 'd': flags[2]})
 
 
-def judge_rx(res, name, p, flags, s, robj, rx):
+# The flags of regex(pattern, ignoreCase, multiLine, dotAll) can also be given by position, with a skipped
+# slot, on the legacy engine (which has no `=>`), and by the host through context(name, engine)(...).
+RX_FLAG_PROBES = ['a\nb', '\nb\n', 'A\na', 'ab']      # '.' against a newline, ^ $ at inner line boundaries, case
+
+
+def build_spelling(spelling, p, flags):
+    v = {'p': p, 'i': flags[0], 'm': flags[1], 'd': flags[2]}
+    if spelling == 'positional':
+        return observe('regex($p, $i, $m, $d)', v)
+    if spelling == 'skipped-slot':
+        return observe('regex($p, , $m, $d)', v)
+    if spelling == 'legacy-positional':
+        return observe('regex($p, $i, $m, $d)', v, legacy=True)
+    if spelling == 'host-call':
+        try:
+            return ('v', yq.root()('regex', yq.engine())(p, *flags))
+        except Exception as e:
+            return ('e', type(e).__name__)
+    raise ValueError(spelling)
+
+
+def spellings(flags):
+    return ['positional', 'legacy-positional', 'host-call'] + ([] if flags[0] else ['skipped-slot'])
+
+
+def judge_spelling(res, spelling, p, flags, rx):
+    """regex() called in another spelling denotes the same regex: searchAll on the probes."""
+    robj = build_spelling(spelling, p, flags)
+    res.evaluations += 1
+    for s in RX_FLAG_PROBES:
+        case = {'kind': 'rx-spelling', 'spelling': spelling, 'pattern': p, 'flags': list(flags), 's': s}
+        res.case(('rx-spelling', spelling, p, flags, s))
+        exp = R.search_all(rx, s)
+        obs = observe('$r.searchAll($s)', {'r': robj[1], 's': s}) if robj[0] == 'v' else robj
+        res.evaluations += 1
+        res.transitions += 1
+        res.nontrivial += 1
+        res.outcomes['rx spelling %s %s' % (spelling, shape(obs))] += 1
+        if not agree(obs, exp):
+            res.fail('model-mismatch fn=regex() flags spelling=%s' % spelling, case,
+                     'observed %s expected %s' % (show(obs), show(exp)))
+
+
+def judge_rx(res, name, p, flags, s, robj, rx, options=None):
     text, model = FORMS[name]
     case = {'kind': 'rx', 'form': name, 'pattern': p, 'flags': list(flags), 's': s}
-    res.case(('rx', name, p, flags, s))
+    ident = ('rx', name, p, flags, s)
+    if options:
+        case['options'] = options
+        ident += (options,)
+    res.case(ident)
     exp = model(rx, s)
-    obs = observe(text, {'s': s, 'p': p} if robj is None else {'s': s, 'r': robj})
+    obs = observe(text, {'s': s, 'p': p} if robj is None else {'s': s, 'r': robj}, options)
     res.evaluations += 1
     res.transitions += 1
     if exp is None:
@@ -449,7 +537,7 @@ def judge_rx(res, name, p, flags, s, robj, rx):
         if '(?P<' in p and name in USES_SELECTOR and obs == ('e', 'ValueError'):
             key = KEY_NAMED
         else:
-            key = 'model-mismatch fn=regex %s' % name
+            key = 'model-mismatch fn=regex %s' % name + (' options=%s' % options if options else '')
         res.fail(key, case, 'observed %s expected %s' % (show(obs), show(exp)))
 
 
@@ -477,14 +565,17 @@ def job_regex(tier, pats):
                          'observed %s expected a regex object' % show(robj))
                 continue
             res.outcomes['regex() object'] += 1
+            if not atoms3 or (thorough and flags[1] != flags[2]):
+                for spelling in spellings(flags):
+                    judge_spelling(res, spelling, p, flags, rx)
             if thorough:
                 strings = (RX_STRINGS_3 if plain and not atoms3 else RX_STRINGS_2) + RX_SAMPLES
             else:
-                strings = RX_FEW if atoms3 else RX_STRINGS_2 + RX_SAMPLES[:3]
+                strings = RX_FEW if atoms3 else (RX_STRINGS_2 + RX_SAMPLES[:3] if plain else RX_FLAGGED_Q)
             for s in strings:
                 for name, _, _ in CORE_FORMS:
                     judge_rx(res, name, p, flags, s, robj[1], rx)
-                if plain and (thorough or not atoms3):
+                if plain and (thorough or (not atoms3 and s in RX_MORE_Q)):
                     for name, _, _ in MORE_FORMS:
                         judge_rx(res, name, p, flags, s, robj[1], rx)
                     for name, _, _ in TEXT_FORMS:
@@ -495,14 +586,77 @@ def job_regex(tier, pats):
     return res
 
 
+# one representative form per function family: (site, text, variables, model call) for a string s
+def representative(s):
+    v = {'s': s}
+    return [
+        ('substring/3', '$s.substring($a, $b)', dict(v, a=-2, b=1), ('substring', (s, -2, 1))),
+        ('indexOf/4', '$s.indexOf($u, $a, $b)', dict(v, u='a', a=-2, b=2), ('index_of', (s, 'a', -2, 2))),
+        ('lastIndexOf/3', '$s.lastIndexOf($u, $a)', dict(v, u='a', a=1), ('last_index_of', (s, 'a', 1))),
+        ('split/1', '$s.split()', v, ('split', (s,))),
+        ('split/3', '$s.split($p, $k)', dict(v, p='a', k=1), ('split', (s, 'a', 1))),
+        ('rightSplit/3', '$s.rightSplit($p, maxSplits => $k)', dict(v, p='a', k=1), ('right_split', (s, 'a', 1))),
+        ('split-join', '$s.split($p).join($p)', dict(v, p='a'), ('concat', (s,))),
+        ('trim/2', '$s.trim($c)', dict(v, c='a'), ('trim', (s, 'a'))),
+        ('norm/1', '$s.norm()', v, ('norm', (s,))),
+        ('isEmpty/3', '$s.isEmpty($t, $c)', dict(v, t=True, c='a '), ('is_empty', (s, True, 'a '))),
+        ('replace/4', '$s.replace($o, $n, $k)', dict(v, o='a', n='ba', k=1), ('replace', (s, 'a', 'ba', 1))),
+        ('replace-dict/var', '$s.replace($d)', dict(v, d=dict(DICTS[1])), ('replace_dict', (s, DICTS[1]))),
+        ('toUpper', '$s.toUpper()', v, ('to_upper', (s,))),
+        ('toCharArray', '$s.toCharArray()', v, ('to_char_array', (s,))),
+        ('len', '$s.len()', v, ('len_', (s,))),
+        ('startsWith/2', '$s.startsWith($x, $y)', dict(v, x='a', y='b '), ('starts_with', (s, 'a', 'b '))),
+        ('op *', '$s * $k', dict(v, k=3), ('repeat', (s, 3))),
+        ('op +', '$s + $t', dict(v, t='\xe9'), ('concat', (s, '\xe9'))),
+        ('op in', '$t in $s', dict(v, t='a'), ('contains', ('a', s))),
+        ('op <', '$s < $t', dict(v, t='ab'), ('compare', ('<', s, 'ab'))),
+        ('join seq-receiver', '$l.join($s)', dict(v, l=['a', '', 'b']), ('join', (['a', '', 'b'], s))),
+    ]
+
+
+def job_options(tier, options):
+    """Engine options must not change what these functions compute: a representative form of every
+    function family under iterator/memory limits, with output conversion off (results read
+    unfinalised) and with input conversion off."""
+    res = Result()
+    for s in SHORT2 + SAMPLES:
+        for site, text, variables, call in representative(s):
+            judge(res, site, text, variables, call, options=options)
+    for bits in ([True] * 12, [False] * 12, [i % 3 == 0 for i in range(12)]):
+        on = [f for f, b in zip(S.FLAGS, bits) if b]
+        res.case(('characters', tuple(bits), options))
+        obs = observe(CHARACTERS_TEXT, dict(zip(FLAG_VARS, bits)), options)
+        res.evaluations += 1
+        res.transitions += 1
+        res.nontrivial += 1
+        res.outcomes['characters %s' % shape(obs)] += 1
+        if not agree(obs, S.characters(on)):
+            res.fail('model-mismatch fn=characters options=%s' % options,
+                     {'kind': 'characters', 'text': CHARACTERS_TEXT, 'vars': dict(zip(FLAG_VARS, bits)),
+                      'flags': on, 'options': options}, 'observed %s' % show(obs))
+    for p, natoms in patterns(1):
+        for flags in (FLAGSETS[0], FLAGSETS[-1]):
+            rx = R.compile_(p, *flags)
+            robj = observe(REGEX_TEXT, {'p': p, 'i': flags[0], 'm': flags[1], 'd': flags[2]}, options)
+            res.evaluations += 1
+            if robj[0] != 'v':
+                res.fail('model-mismatch fn=regex() options=%s' % options,
+                         {'kind': 'regex', 'pattern': p, 'flags': list(flags)}, 'observed %s' % show(robj))
+                continue
+            for s in RX_STRINGS_2 + RX_FLAG_PROBES:
+                for name, _, _ in CORE_FORMS:
+                    judge_rx(res, name, p, flags, s, robj[1], rx, options)
+    return res
+
+
 def jobs(tier, seed):
-    out = []
+    out = [('options-' + o, 'job_options', (tier, o)) for o in sorted(OPTION_SETS)]
     n_str = 30
     for i in range(n_str):
         out.append(('strings-%02d' % i, 'job_strings', (tier, STRINGS[i::n_str])))
     out.append(('misc', 'job_misc', (tier,)))
     pats = patterns(3)
-    n_rx = 33
+    n_rx = 30
     for i in range(n_rx):
         out.append(('regex-%02d' % i, 'job_regex', (tier, pats[i::n_rx])))
     return out
@@ -515,26 +669,32 @@ def replay(case):
     k = case['kind']
     if k == 'str':
         exp = getattr(S, case['call'][0])(*case['call'][1])
-        obs = observe(case['text'], case['vars'])
+        obs = observe(case['text'], case['vars'], case.get('options'))
         return {'observed': show(obs), 'expected': show(exp), 'ok': exp is None or agree(obs, exp)}
     if k == 'characters':
         exp = S.characters(case['flags'])
-        obs = observe(case['text'], case['vars'])
+        obs = observe(case['text'], case['vars'], case.get('options'))
         return {'observed': show(obs), 'expected': show(sorted(exp[1])), 'ok': agree(obs, exp)}
     if k == 'regex':
         obs = build_regex(case['pattern'], tuple(case['flags']))
         return {'observed': show(obs), 'expected': 'a regex object', 'ok': obs[0] == 'v'}
+    if k == 'rx-spelling':
+        flags = tuple(case['flags'])
+        exp = R.search_all(R.compile_(case['pattern'], *flags), case['s'])
+        robj = build_spelling(case['spelling'], case['pattern'], flags)
+        obs = observe('$r.searchAll($s)', {'r': robj[1], 's': case['s']}) if robj[0] == 'v' else robj
+        return {'observed': show(obs), 'expected': show(exp), 'ok': agree(obs, exp)}
     if k == 'rx':
         flags = tuple(case['flags'])
         rx = R.compile_(case['pattern'], *flags)
         text, model = FORMS[case['form']]
         exp = model(rx, case['s'])
         if text.find('$p') >= 0:
-            obs = observe(text, {'s': case['s'], 'p': case['pattern']})
+            obs = observe(text, {'s': case['s'], 'p': case['pattern']}, case.get('options'))
         else:
             robj = build_regex(case['pattern'], flags)
             if robj[0] != 'v':
                 return {'observed': show(robj), 'expected': show(exp), 'ok': False}
-            obs = observe(text, {'s': case['s'], 'r': robj[1]})
+            obs = observe(text, {'s': case['s'], 'r': robj[1]}, case.get('options'))
         return {'observed': show(obs), 'expected': show(exp), 'ok': exp is None or agree(obs, exp)}
     return {'ok': False, 'observed': 'unknown case kind'}
